@@ -300,7 +300,8 @@ def mutation_search(payload, fails):
             break
     # tuple / dict / set / list 'of' forms with several components, not in any sorted order: EVERY analysis function, one after the other
     from predicate.standard_predicates import is_dict_of_p, is_tuple_of_p, is_set_of_p, is_list_of_p, is_str_p, is_int_p, is_bool_p
-    comps = [is_dict_of_p(("name", is_str_p), ("age", is_int_p)), is_dict_of_p(("z", is_int_p), ("m", is_str_p), ("a", is_bool_p)),
+    comps = [is_dict_of_p(("id", is_int_p), (is_str_p, is_str_p), ("age", is_int_p)), is_dict_of_p((is_str_p, is_int_p), ("zz", is_int_p), (is_int_p, is_str_p), ("aa", is_str_p)),
+             is_dict_of_p(("name", is_str_p), ("age", is_int_p)), is_dict_of_p(("z", is_int_p), ("m", is_str_p), ("a", is_bool_p)),
              is_dict_of_p((is_str_p, is_int_p), ("age", ge_p(0))), is_tuple_of_p(is_str_p, is_int_p, is_bool_p), is_tuple_of_p(ge_p(3), in_p(3, 1, 2), eq_p(0)),
              is_tuple_of_p(is_dict_of_p(("b", is_int_p), ("a", is_str_p)), is_list_of_p(in_p(9, 8, 7))), is_set_of_p(in_p(5, 4, 3)) | is_list_of_p(not_in_p(2, 1)),
              is_dict_of_p(("k", is_tuple_of_p(is_int_p, is_str_p)), ("j", is_dict_of_p(("y", is_int_p), ("x", is_str_p))))]
